@@ -23,3 +23,88 @@ pub trait TIter<T>: Vec1View<T> {
     fn titer(&self) -> (it: It<T>)
         ensures it.seq() == self.view(), it.announced() == Some(self.view().len()), it.trusted();
 }
+
+pub open spec fn min_nat(a: nat, b: nat) -> nat { if a <= b { a } else { b } }
+pub open spec fn opt_min(a: Option<nat>, b: Option<nat>) -> Option<nat> {
+    match (a, b) { (Some(x), Some(y)) => Some(min_nat(x, y)), (Some(x), None) => Some(x), (None, Some(y)) => Some(y), (None, None) => None }
+}
+pub open spec fn opt_add(a: Option<nat>, b: Option<nat>) -> Option<nat> {
+    match (a, b) { (Some(x), Some(y)) => Some(x + y), _ => None }
+}
+
+// std adaptors (A-ITER): exact sequence semantics; size_hint upper bound as std computes it; TrustedLen per
+// tea-core/src/vec_core/trusted.rs (Take, Skip, Chain, Zip, Map, Rev, RepeatN, Range, vec::IntoIter, TrustIter: yes; Filter: no)
+impl<A> It<A> {
+    // TrustedLen::len() of tevec = size_hint().1.unwrap()
+    #[verifier::external_body]
+    pub fn len(&self) -> (r: usize)
+        requires self.announced().is_some(),
+        ensures Some(r as nat) == self.announced(),
+    { unimplemented!() }
+
+    #[verifier::external_body]
+    pub fn take(self, k: usize) -> (r: It<A>)
+        ensures
+            r.seq() == self.seq().take(min_nat(k as nat, self.seq().len()) as int),
+            r.announced() == opt_min(Some(k as nat), self.announced()),
+            r.trusted() == self.trusted(),
+    { unimplemented!() }
+
+    #[verifier::external_body]
+    pub fn skip(self, k: usize) -> (r: It<A>)
+        ensures
+            r.seq() == self.seq().skip(min_nat(k as nat, self.seq().len()) as int),
+            r.announced() == (match self.announced() { Some(a) => Some(if k as nat <= a { (a - k) as nat } else { 0nat }), None => None }),
+            r.trusted() == self.trusted(),
+    { unimplemented!() }
+
+    #[verifier::external_body]
+    pub fn chain(self, o: It<A>) -> (r: It<A>)
+        ensures
+            r.seq() == self.seq() + o.seq(),
+            r.announced() == opt_add(self.announced(), o.announced()),
+            r.trusted() == (self.trusted() && o.trusted()),
+    { unimplemented!() }
+
+    #[verifier::external_body]
+    pub fn zip<B>(self, o: It<B>) -> (r: It<(A, B)>)
+        ensures
+            r.seq() == Seq::new(min_nat(self.seq().len(), o.seq().len()), |i: int| (self.seq()[i], o.seq()[i])),
+            r.announced() == opt_min(self.announced(), o.announced()),
+            r.trusted() == (self.trusted() && o.trusted()),
+    { unimplemented!() }
+
+    #[verifier::external_body]
+    pub fn map<B, F: Fn(A) -> B>(self, f: F) -> (r: It<B>)
+        requires forall|x: A| #[trigger] f.requires((x,)),
+        ensures
+            r.seq().len() == self.seq().len(),
+            forall|i: int| 0 <= i < self.seq().len() ==> f.ensures((self.seq()[i],), #[trigger] r.seq()[i]),
+            r.announced() == self.announced(),
+            r.trusted() == self.trusted(),
+    { unimplemented!() }
+
+    #[verifier::external_body]
+    pub fn rev(self) -> (r: It<A>)
+        ensures r.seq() == self.seq().reverse(), r.announced() == self.announced(), r.trusted() == self.trusted(),
+    { unimplemented!() }
+
+    // tea-core trusted.rs: TrustIter::new(iter, len) / ToTrustIter::to_trust(len) — an UNSAFE promise (R12).
+    // The promise must be true: this precondition is the C09 obligation at every construction site.
+    #[verifier::external_body]
+    pub fn to_trust(self, len: usize) -> (r: It<A>)
+        requires self.seq().len() == len,          // #C09 announced_length_is_exact
+        ensures r.seq() == self.seq(), r.announced() == Some(len as nat), r.trusted(),
+    { unimplemented!() }
+}
+
+#[verifier::external_body]
+pub fn repeat_n<A>(v: A, k: usize) -> (r: It<A>)
+    ensures r.seq() == Seq::new(k as nat, |i: int| v), r.announced() == Some(k as nat), r.trusted(),
+{ unimplemented!() }
+
+#[verifier::external_body]
+pub fn trust_iter_new<A>(it: It<A>, len: usize) -> (r: It<A>)
+    requires it.seq().len() == len,                // #C09 announced_length_is_exact
+    ensures r.seq() == it.seq(), r.announced() == Some(len as nat), r.trusted(),
+{ unimplemented!() }
